@@ -227,7 +227,12 @@ func (d *didState) newKey() *keyPair {
 
 func (d *didState) somePatches() []interface{} {
 	d.nextSvc++
-	switch d.r.Intn(5) {
+	switch d.r.Intn(7) {
+	case 5: // a replace without keys: the document then holds a null publicKey member
+		return []interface{}{replacePatch(nil, []interface{}{docService(fmt.Sprintf("svc%d", d.nextSvc), "T", "https://example.com/only")})}
+	case 6: // a member whose value is null
+		return []interface{}{map[string]interface{}{"action": "ietf-json-patch",
+			"patches": []interface{}{map[string]interface{}{"op": "add", "path": fmt.Sprintf("/nothing%d", d.nextSvc), "value": nil}}}}
 	case 0:
 		return []interface{}{replacePatch(
 			[]interface{}{docKey(fmt.Sprintf("key%d", d.nextSvc), genKey(d.r, "P-256"), "authentication")},
@@ -279,12 +284,13 @@ func flipBitB64(s string, r *rand.Rand) string {
 var commonSigned = []string{"", "", "", "sig_bitflip", "payload_reencoded", "key_subst_no_resign", "kid_added_no_resign",
 	"sig_truncated", "sig_extended", "sig_by_other_key", "key_subst_resigned", "key_subst_resigned_old_reveal", "reveal_substituted",
 	"reveal_unconfigured_alg", "reveal_truncated_digest", "reveal_respelled", "extra_header", "alg_not_allowed", "alg_missing", "curve_not_allowed", "nonce_wrong_size",
-	"malformed_json", "missing_did_suffix", "missing_signed_data", "jws_two_parts", "jws_empty_sig", "payload_not_json",
+	"malformed_json", "missing_did_suffix", "missing_signed_data", "absent_did_suffix", "absent_reveal_value", "absent_signed_data", "absent_type",
+	"alg_other_case", "header_duplicate_member_no_resign", "jws_two_parts", "jws_empty_sig", "payload_not_json",
 	"json_type_member_differs", "early", "late", "at_from", "at_until", "at_default_until", "after_default_until", "until_only", "inverted_window", "negative_until", "negative_from"}
 
 var deltaMuts = []string{"delta_substituted", "delta_no_patches", "delta_disabled_action", "delta_invalid_patch",
 	"delta_oversize", "delta_bad_update_commitment", "delta_missing", "delta_missing_hash_of_null", "compose_fails",
-	"signed_delta_hash_unconfigured_alg", "delta_hash_truncated", "delta_hash_respelled"}
+	"signed_delta_hash_unconfigured_alg", "delta_hash_truncated", "delta_hash_respelled", "delta_invalid_patch_after_valid_same_action", "big_request", "rotate_nonce_only"}
 
 func mutationsFor(typ string) []string {
 	switch typ {
@@ -292,7 +298,7 @@ func mutationsFor(typ string) []string {
 		return []string{"", "", "malformed_json", "missing_suffix_data", "recovery_commitment_not_mh", "delta_hash_not_mh",
 			"delta_substituted", "delta_no_patches", "delta_disabled_action", "delta_invalid_patch", "delta_oversize",
 			"delta_bad_update_commitment", "delta_missing", "delta_missing_hash_of_null", "compose_fails",
-			"json_type_member_differs", "origin_object", "origin_string", "delta_hash_truncated", "delta_hash_respelled"}
+			"json_type_member_differs", "origin_object", "origin_string", "delta_hash_truncated", "delta_hash_respelled", "delta_invalid_patch_after_valid_same_action", "big_request", "rotate_nonce_only"}
 	case "update":
 		return append(append([]string{}, commonSigned...), deltaMuts...)
 	case "recover":
@@ -316,8 +322,33 @@ func (d *didState) buildOp(typ, mut string, t uint64, cfg *protocol.Protocol) bu
 	if mut == "compose_fails" {
 		patches = failingPatches()
 	}
+	if mut == "big_request" { // a valid request of a few kilobytes (nothing may be cut off on the way)
+		var svcs []interface{}
+		for k := 0; k < 14; k++ {
+			svcs = append(svcs, map[string]interface{}{"id": fmt.Sprintf("bigsvc%d", k), "type": "LinkedDomains",
+				"serviceEndpoint": fmt.Sprintf("https://service-%d.example.com/a/rather/long/path/to/make/the/request/large/%d", k, k)})
+		}
+		patches = []interface{}{map[string]interface{}{"action": "add-services", "services": svcs}}
+	}
 	nextUpd := d.newKey()
 	nextRec := d.newKey()
+	if mut == "rotate_nonce_only" { // the next keys are the current key material under another nonce: other keys, other commitments
+		renonce := func(k *keyPair) *keyPair {
+			if k == nil {
+				return d.newKey()
+			}
+			cp := *k
+			if cp.nonce != "" { // a key with a nonce rotates to the bare key material, a bare key gets a nonce
+				cp.nonce = ""
+			} else {
+				n := make([]byte, d.cfg.NonceSize)
+				rngReader{d.r}.Read(n)
+				cp.nonce = b64(n)
+			}
+			return &cp
+		}
+		nextUpd, nextRec = renonce(d.upd), renonce(d.rec)
+	}
 	delta := map[string]interface{}{"patches": patches, "updateCommitment": commitmentOf(nextUpd.jwk(), code)}
 	switch mut {
 	case "delta_no_patches":
@@ -335,6 +366,11 @@ func (d *didState) buildOp(typ, mut string, t uint64, cfg *protocol.Protocol) bu
 		v.DeltaValid = false
 	case "delta_invalid_patch":
 		delta["patches"] = []interface{}{map[string]interface{}{"action": "remove-services", "ids": []interface{}{"bad id!"}}}
+		v.DeltaValid = false
+	case "delta_invalid_patch_after_valid_same_action": // every patch of a delta is validated, not only the first of its action
+		delta["patches"] = []interface{}{
+			map[string]interface{}{"action": "remove-services", "ids": []interface{}{"svc1"}},
+			map[string]interface{}{"action": "remove-services", "ids": []interface{}{"bad id!"}}}
 		v.DeltaValid = false
 	case "delta_bad_update_commitment":
 		delta["updateCommitment"] = "abc"
@@ -565,6 +601,13 @@ func (d *didState) buildOp(typ, mut string, t uint64, cfg *protocol.Protocol) bu
 		case "alg_missing":
 			hdr = map[string]interface{}{"kid": "k"}
 			v.ParseOK = false
+		case "alg_other_case": // signed over a header naming the algorithm in another letter case: not an allowed algorithm
+			alt := strings.ToLower(signer.alg)
+			if alt == signer.alg {
+				alt = strings.ToUpper(signer.alg)
+			}
+			hdr = map[string]interface{}{"alg": alt}
+			v.ParseOK = false
 		case "extra_header":
 			hdr["typ"] = "JWT"
 			v.ParseOK = false
@@ -623,6 +666,9 @@ func (d *didState) buildOp(typ, mut string, t uint64, cfg *protocol.Protocol) bu
 			parts[1] = b64(jcs(p2))
 			revealKey = o2
 			v.SigOK = false
+		case "header_duplicate_member_no_resign": // a member twice, the last occurrence being what was signed: not the signed header
+			parts[0] = b64([]byte(`{"alg":"none","alg":` + string(jcs(signer.alg)) + `}`))
+			v.ParseOK = false
 		case "kid_added_no_resign":
 			h2 := map[string]interface{}{"alg": signer.alg, "kid": "added"}
 			parts[0] = b64(jcs(h2))
@@ -653,6 +699,17 @@ func (d *didState) buildOp(typ, mut string, t uint64, cfg *protocol.Protocol) bu
 		case "missing_did_suffix":
 			op.didSuffix = ""
 			v.ParseOK = false
+		case "absent_did_suffix": // the member is not there at all (nothing left over from an earlier request may fill it in)
+			op.omit = []string{"didSuffix"}
+			v.ParseOK = false
+		case "absent_reveal_value":
+			op.omit = []string{"revealValue"}
+			v.ParseOK = false
+		case "absent_signed_data":
+			op.omit = []string{"signedData"}
+			v.ParseOK = false
+		case "absent_type":
+			op.omit = []string{"type"}
 		case "missing_signed_data":
 			op.signedData = ""
 			v.ParseOK = false
@@ -851,8 +908,14 @@ func systematicScripts(focus string) [][][2]string {
 	return out
 }
 
+var histSeq int
+
 func genHistory(r *rand.Rand, focus string, maxLen int) (*histCase, []protocol.Protocol) {
 	base := baseProtocol(r)
+	histSeq++
+	if focus == "window" && histSeq%5 == 0 { // no allowance at all: a from-only window is the single instant t = from
+		base.MaxOperationTimeDelta = 0
+	}
 	kinds := keyKinds
 	if r.Intn(3) != 0 {
 		kinds = []string{keyKinds[r.Intn(len(keyKinds))]}
